@@ -111,7 +111,45 @@ def obs_iv(r, masked):
     return [r.start, r.end, key * KEYMOD + r.ver]
 
 
+@dataclass(frozen=True, kw_only=True)
+class NoKeyEv(Interval):
+    """a rich event WITHOUT the field the cache is keyed on"""
+    label: str = ""
+
+
+def run_keyless(case):
+    """A cache keyed on a field its source's events do not have refuses every query that has to store
+    such an event (TypeError: missing key field) — the first time and every time after: a failed
+    evaluation must leave nothing behind that makes the next one answer."""
+    clock = FakeClock(case["t0"], case["tick"])
+    saved = cache_mod.monotonic
+    cache_mod.monotonic = clock
+    try:
+        evs = [NoKeyEv(start=s, end=e, label=f"e{k}") for (s, e, k) in case["evs"]]
+        c = cached(timeline(*evs), ttl=case["ttl"], key="id")
+        kinds = []
+        for op in case["keyless_ops"]:
+            _, a, b, rev = op[:4]
+            hit = any((s is None or s <= b) and (e is None or e > a) for (s, e, _) in case["evs"])
+            for attempt in (1, 2):
+                try:
+                    got = [[x.start, x.end] for x in c.fetch(a, b, reverse=rev)]
+                    kinds.append(("ok", got))
+                    if hit:
+                        return {"err": f"attempt {attempt} of cached(keyless source)[{a}:{b}] returned {got}; the events "
+                                       f"have no key field: TypeError expected (what earlier attempts did: {kinds[:-1]})"}
+                except TypeError:
+                    kinds.append(("TypeError", None))
+        return dict(outs=[], logs=[], evt=[], failed=[])
+    except Exception as ex:
+        return {"err": type(ex).__name__ + ": " + str(ex)[:200]}
+    finally:
+        cache_mod.monotonic = saved
+
+
 def run_history(case):
+    if case.get("keyless_ops"):
+        return run_keyless(case)
     clock = FakeClock(case["t0"], case["tick"])
     saved = cache_mod.monotonic
     cache_mod.monotonic = clock
@@ -227,6 +265,11 @@ class CacheFamily(Family):
                     ops.append(["mut"])
             if not any(o[0] == "q" for o in ops):
                 ops.append(["q", 0, 10, False])
+            if not masked and rng.random() < 0.04:
+                # the same history on a source whose events lack the key field (the model sees an empty history)
+                yield dict(masked=False, ttl=ttl, tick=tick, t0=0, evs=evs, ops=[], compound=False,
+                           keyless_ops=[o for o in ops if o[0] == "q"])
+                continue
             yield dict(masked=masked, ttl=ttl, tick=tick, t0=rng.choice([0, 100]), evs=evs, ops=ops,
                        compound=((rng.choice([True, "none"]) if rng.random() < 0.25 else False) if not masked else False))
 
